@@ -25,6 +25,122 @@ type ckptState struct {
 }
 
 func runC14(c *core.Ctx) *core.Violation {
+	if c.T.Choose(6) == 5 {
+		return runC14Sender(c)
+	}
+	return runC14History(c)
+}
+
+// runC14Sender decides the last clause with the real writer: a DbSyncer runs a generated multi-db stream into the
+// target model, the tool process is killed, and the loader must read back exactly what the sender left there.
+func runC14Sender(c *core.Ctx) *core.Violation {
+	t := c.T
+	c.Sub = "sender"
+	env.DefaultOptions(conf.TypeSync)
+	lc := env.CaptureLog("info", 2<<20)
+	conf.Options.ResumeFromBreakPoint = true
+	conf.Options.Metric = true
+	conf.Options.KeyExists = "rewrite"
+	conf.Options.TargetReplace = true
+	conf.Options.SenderCount = uint([]int{1024, 1, 3}[t.Choose(3)])
+	o0 := int64([]int{0, 1000, 4294967296}[t.Choose(3)])
+	cmds, stream := GenStream(t, StreamOpts{MaxCmds: 25, DBs: 4, StartDB: -1, MinCmds: 4, NoScripts: true})
+	want := ExpectedForward(cmds, FilterCfg{TargetDB: -1})
+	if len(want) < 1 {
+		return nil
+	}
+	var rel []modelredis.Release
+	at := time.Second
+	for _, cm := range cmds {
+		if t.Choose(2) == 0 {
+			at += time.Duration(t.Choose(1500)) * time.Millisecond
+		}
+		rel = append(rel, modelredis.Release{Upto: cm.EndOff, At: at})
+	}
+	rel = append(rel, modelredis.Release{Upto: len(stream), At: at})
+	lastRelease := at
+	killAt := time.Duration(t.Choose(int(lastRelease/time.Millisecond)+4000)) * time.Millisecond
+	dbsSeen := map[int]bool{}
+	for _, w := range want {
+		dbsSeen[w.DB] = true
+	}
+	c.Sample = map[string]interface{}{"sub": "sender", "o0": o0, "commands": len(cmds), "forwarded": len(want), "dbs_written": len(dbsSeen), "kill_at": killAt.String(), "last_release": lastRelease.String()}
+	var viol *core.Violation
+	var e *SyncEnv
+	s := simrt.Run(c.TT, t, simrt.Config{MaxSteps: 3000000, MaxSimTime: time.Hour, Trace: c.Trace}, func(s *simrt.Sim) {
+		e = NewSyncEnv(c, s, lc)
+		e.Src.O0, e.Src.Stream, e.Src.Release = o0, stream, rel
+		e.Src.RDB, _ = smallRDB(t, 1)
+		e.StartTool()
+		// some incarnations are killed mid-stream, the others after everything was applied
+		e.WaitUntil(lastRelease+60*time.Second, 50*time.Millisecond, func() bool {
+			off, _, _, _ := storedCheckpoint(e.Tgt, srcAddr)
+			return off >= 0 && (s.Now() >= killAt+time.Second || (len(e.IncrLog()) >= len(want) && s.Now() > lastRelease+2*time.Second))
+		})
+		if e.ToolAborted() {
+			viol = core.Violate("abort", "sender,err="+env.ErrClass(e.AbortText()), "the tool aborted without an injected fault: %s", e.AbortText())
+			return
+		}
+		s.Fault("tool_crash")
+		s.Crash(e.Tool)
+		s.Sleep(300 * time.Millisecond)
+		wantOff, wantDB, wantRun, _ := storedCheckpoint(e.Tgt, srcAddr)
+		if wantOff < 0 {
+			return // nothing was stored yet
+		}
+		stored := map[int]int64{}
+		for _, d := range e.Tgt.DBIDs() {
+			if en := e.Tgt.Get(d, "redis-shake-checkpoint"); en != nil {
+				for _, p := range en.Val.Hash {
+					if string(p.F) == srcAddr+"-offset" {
+						stored[d], _ = strconv.ParseInt(string(p.V), 10, 64)
+					}
+				}
+			}
+		}
+		proc := s.NewProc("loader")
+		var runid string
+		var off int64
+		var db int
+		var err error
+		finished := false
+		s.GoProc(proc, "load", func() {
+			runid, off, db, err = checkpoint.LoadCheckpoint(0, srcAddr, []string{tgtAddr}, "auth", tgtPassword, "redis-shake-checkpoint", false, false)
+			finished = true
+		})
+		for i := 0; i < 2000 && !finished && s.Alive(proc); i++ {
+			s.Sleep(10 * time.Millisecond)
+		}
+		site := fmt.Sprintf("sender,dbs=%d", minI(len(stored), 3))
+		switch {
+		case proc.Panicked:
+			viol = core.Violate("go-panic", "load-after-sender", "Go panic in LoadCheckpoint: %s", firstLines(proc.PanicMsg, 6))
+		case proc.Exited:
+			viol = core.Violate("abort", "load-after-sender,err="+env.ErrClass(lc.LastPanic()), "LoadCheckpoint aborted: %s", lc.LastPanic())
+		case !finished:
+			viol = core.Violate("load-hangs", "sender", "LoadCheckpoint did not return: %v", s.TaskStates())
+		case err != nil:
+			viol = core.Violate("sender-checkpoint-refused", site, "the loader refuses what the sender stored (checkpoint offsets per db %v): %v", stored, err)
+		case off != wantOff:
+			viol = core.Violate("sender-readback", site+",offset", "the sender's newest stored offset is %d (db %d) but the loader returned %d (db %d); stored %v", wantOff, wantDB, off, db, stored)
+		case runid != e.Src.RunID || wantRun != e.Src.RunID:
+			viol = core.Violate("sender-readback", site+",runid", "the source announced run id %q, the newest checkpoint (db %d) stores %q and the loader returned %q", e.Src.RunID, wantDB, wantRun, runid)
+		case stored[db] != wantOff:
+			viol = core.Violate("sender-readback", site+",db", "the loader returned db %d whose stored offset is %d; the newest offset %d is in db %d", db, stored[db], wantOff, wantDB)
+		case off < o0 || off > o0+int64(len(stream)):
+			viol = core.Violate("sender-readback", site+",range", "offset %d is outside the stream [%d,%d]", off, o0, o0+int64(len(stream)))
+		}
+		if len(stored) > 1 {
+			c.Probe("sender_wrote_several_dbs")
+		}
+	})
+	c.Absorb(s)
+	c.Log = lc.Tail(30)
+	c.Nontrivial = true
+	return viol
+}
+
+func runC14History(c *core.Ctx) *core.Violation {
 	t := c.T
 	env.DefaultOptions(conf.TypeSync)
 	lc := env.CaptureLog("info", 1<<20)
@@ -315,11 +431,11 @@ func init() {
 			"oracle: returned (run id, offset, db) = the own-source entry with the greatest offset (any arg-max on ties; '?'/-1 if it lacks a run id; -1 if none), version < 1 refused, other sources' fields untouched, own stale fields removed elsewhere; " +
 			"distinct = hash of the history; non-trivial = at least one write",
 		Assumptions: []string{
-			"writer/reader agreement with the real incremental sender is exercised end to end by C04 and C08 (restart and resume through real checkpoints)",
+			"1/6 of the runs ('sender') let the real DbSyncer write the checkpoints (multi-db stream, killed mid-stream or after it) and require the loader to return exactly the newest stored (offset, run id, db); resume through those checkpoints is C04/C08",
 			"a cut connection may surface as an error or as an abort of the loader; only a wrong answer is a violation",
 		},
-		RealVsStub: "real: checkpoint.LoadCheckpoint/fetchCheckpoint/ClearCheckpoint, utils.ParseKeyspace, redigo; simulated: TCP incl. cut, target model, clock, scheduling",
-		ProbeNames: []string{"several_sources", "old_version_refused", "cut_reported_as_error", "cut_during_clear"},
-		FaultNames: []string{"conn_cut", "conn_cut_during_load"},
+		RealVsStub: "real: checkpoint.LoadCheckpoint/fetchCheckpoint/ClearCheckpoint, utils.ParseKeyspace, redigo, and in sender runs the whole DbSyncer (sendTargetCommand writes the checkpoints); simulated: TCP incl. cut, target model, clock, scheduling",
+		ProbeNames: []string{"several_sources", "old_version_refused", "cut_reported_as_error", "cut_during_clear", "sender_wrote_several_dbs"},
+		FaultNames: []string{"conn_cut", "conn_cut_during_load", "tool_crash"},
 	})
 }
